@@ -886,6 +886,31 @@ public:
                     o["name"] = n;
                     o["dep"] = true;
                     const Expr* ce = strip(c->getCallee());
+                    // a call that cannot be resolved before instantiation (a type-dependent argument) but whose every candidate is
+                    // [[noreturn]] - raise(..., args_.size(), ...) inside a template - does not return in any instantiation
+                    if (auto* ul2 = dyn_cast<UnresolvedLookupExpr>(ce))
+                    {
+                        bool any = false, all = true;
+                        for (auto* d : ul2->decls())
+                        {
+                            const NamedDecl* u = d->getUnderlyingDecl();
+                            const FunctionDecl* cand = nullptr;
+                            if (auto* ft = dyn_cast<FunctionTemplateDecl>(u))
+                                cand = ft->getTemplatedDecl();
+                            else
+                                cand = dyn_cast<FunctionDecl>(u);
+                            if (!cand)
+                            {
+                                all = false;
+                                continue;
+                            }
+                            any = true;
+                            if (!cand->isNoReturn())
+                                all = false;
+                        }
+                        if (any && all)
+                            o["noreturn"] = true;
+                    }
                     if (isa<UnresolvedMemberExpr>(ce) || isa<CXXDependentScopeMemberExpr>(ce))
                     {
                         o["this"] = base ? JE(base) : json::Value(json::Object{ { "k", "this" } });
